@@ -16,7 +16,9 @@ impl PanicRec {
     /// named by VERIF_SUBJECT_DIR during development runs).
     pub fn in_subject(&self) -> bool {
         let dir = subject_dir();
-        self.file.starts_with(&dir) || self.file.starts_with("src/")
+        // the engine's own files are recorded relative to the engine ("src/props/..."): a panic there
+        // is a harness error, never an observation about the subject
+        self.file.starts_with(&dir)
     }
     /// Location + message prefix without the line number (stable across unrelated edits).
     pub fn class(&self) -> String {
